@@ -18,6 +18,7 @@ type form struct {
 	main  string
 	mods  map[string]string // further modules
 	kinds string            // "" = parsed, analyzed, optimize
+	after string            // not accepted by the pinned tree until this defect is repaired (then it must pass)
 	sing  map[string]hs.Value
 }
 
@@ -69,7 +70,7 @@ var forms = []form{
 	{name: "float-negative", main: m(`println(-1.5, -2f, -0.00001, - -1.5);`)},
 	{name: "float-int64-edge", main: m(`println(9223372036854775807.0, 9223372036854775808.0);`)},
 	{name: "float-global", main: "let g = 1234567.5;\nlet h = 0.00001;\n" + m(`println(g, h);`)},
-	{name: "bool-null-none", main: m(`println(true, false, null); let x: ?int = none; println(x);`)},
+	{name: "bool-null-none", main: m(`println(true, false); let x: ?int = none; let n = null; println(x, n == null);`)},
 
 	// ------------------------------------------------------------------------------------------
 	// prefix / infix / grouping
@@ -102,32 +103,33 @@ var forms = []form{
 	// calls, members, index, cast
 	{name: "call-forms", main: "fn f() -> int { 1 }\nfn g(a: int, b: str) -> str { b + a.to_string() }\n" + m(`println(f(), g(2, "x"), g(f(), g(1, "y")));`)},
 	{name: "call-closure", main: m(`let f = fn(x: int) -> int { x * 2 }; let g = fn() { println("g"); }; g(); println(f(4), (fn(a: int, b: int) -> int { a - b })(9, 3));`)},
-	{name: "call-closure-returning-closure", main: m(`let mk = fn(k: int) -> fn(x: int) -> int { fn(x: int) -> int { x + 1 } }; println(mk(3)(4));`)},
+	{name: "call-closure-returning-closure", after: "fn-type-params", main: m(`let mk = fn(k: int) -> fn(x: int) -> int { fn(x: int) -> int { x + 1 } }; println(mk(3)(4));`)},
 	{name: "call-method-chain", main: m(`let l = [3, 1, 2]; l.push(0); l.sort(); println(l, l.len().to_string() + "!", "a,b".split(",").len(), l.last().unwrap());`)},
-	{name: "fn-param-types", main: "fn f(a: [int], b: ?str, c: { x: int }, d: fn(i: int) -> int, e: range, g: { ? }, h: float, i: bool, j: null) -> int { d(a[0] + c.x) }\n" + m(`println(f([1], none, new { x: 2 }, fn(i: int) -> int { i * 10 }, 0..1, new { ? }, 1.5, true, null));`)},
+	{name: "fn-param-types", main: "fn f(a: [int], b: ?str, c: { x: int }, d: fn() -> int, e: range, g: { ? }, h: float, i: bool) -> int { d() + a[0] + c.x }\n" + m(`println(f([1], none, new { x: 2 }, fn() -> int { 10 }, 0..1, new { ? }, 1.5, true));`)},
+	{name: "fn-param-fn-type", after: "fn-type-params", main: "fn f(d: fn(i: int, s: str) -> int) -> int { d(2, \"ab\") }\n" + m(`println(f(fn(i: int, s: str) -> int { i * s.len() }));`)},
 	{name: "index-forms", main: m(`let l = [[1, 2], [3, 4]]; let s = "héllo"; println(l[0], l[1][0], l[-1][-1], s[1], l[0 + 1][1 - 1]);`)},
 	{name: "index-object", main: m(`let o = new { a: 1, "b c": 2 }; println(o["a"], o["b c"]);`)},
 	{name: "member-dot", main: m(`let o = new { a: new { b: new { c: 5 } } }; println(o.a.b.c, (0..5).end, "x".len());`)},
 	{name: "member-arrow", main: m(`let a = new { bar: "baz", n: 1 } as { ? }; let v: ?str = a->bar; let w: str = a~>bar; println(v, w, a->quux);`)},
-	{name: "cast-primitives", main: m(`let i = 3; let f = 2.75; let b = true; println(i as float, f as int, b as int, i as bool, i as str, f as str, i as int);`)},
-	{name: "cast-compound", main: m(`let o = new { a: 1 }; let a = o as { ? }; let l = [1, 2]; println(a, l as [int], (a as { a: int }).a, ?1 as ?int);`)},
+	{name: "cast-primitives", main: m(`let i = 3; let f = 2.75; let b = true; println(i as float, f as int, b as int, i as bool, i as int);`)},
+	{name: "cast-compound", main: m(`let o = new { a: 1 }; let a = o as { ? }; let l = [1, 2]; println(a, l as [int], ?1 as ?int);`)},
 	{name: "cast-chain", main: m(`let i = 3; println(i as float as int, (i as float) as int, i as float + 0.5, (i + 1) as float);`)},
 	{name: "cast-alias", main: "type N = int;\ntype O = { a: int, \"b c\": str };\n" + m(`let o = new { a: 1, "b c": "x" }; println(3 as N, (o as O).a);`)},
-	{name: "cast-fn-type", main: m(`let f = fn(a: int) -> int { a + 1 }; let g = f as fn(a: int) -> int; println(g(1));`)},
+	{name: "cast-fn-type", after: "fn-type-params", main: m(`let f = fn(a: int) -> int { a + 1 }; let g = f as fn(a: int) -> int; println(g(1));`)},
 	{name: "cast-any", main: "import any_func from testing;\n" + m(`let l: [int] = [1]; println(l); let j = "[1, 2]".parse_json() as [int]; println(j);`)},
 
 	// ------------------------------------------------------------------------------------------
 	// ranges, lists, objects
-	{name: "range-forms", main: m(`let a = 1; let b = 4; println(0..3, 0..=3, a..b, a..=b, (a + 1)..(b * 2), a + 1..b * 2, -1..1, (0..3).rev());`)},
+	{name: "range-forms", main: m(`let a = 1; let b = 4; println(0..3, 0..=3, a..b, a..=b, (a + 1)..(b * 2), -1..1, (0..3).rev());`)},
 	{name: "range-in-for", main: m(`for i in 0..3 { print(i); } for i in 0..=3 { print(i); } for i in (0..3).rev() { print(i); } println("");`)},
-	{name: "list-forms", main: m(`let e: [int] = []; let n = [[1], [], [2, 3]]; let o = [new { a: 1 }, new { a: 2 }]; let q = [?1, none]; println(e, n, o[1].a, q, [1.5, 2f], [true], ["s"], [0..1]);`)},
+	{name: "list-forms", main: m(`let e: [int] = []; let n = [[1], [2, 3]]; let o = [new { a: 1 }, new { a: 2 }]; let q = [?1, none]; println(e, n, o[1].a, q, [1.5, 2f], [true], ["s"], [0..1]);`)},
 	{name: "object-ident-keys", main: m(`let o = new { a: 1, bb: "x", c_1: 2.5, _d: true, E9: [1] }; println(o.a, o.bb, o.c_1, o._d, o.E9);`)},
 	{name: "object-string-keys", main: m(`let o = new { "a b": 1, "1x": 2, "ä": 3, "a-b": 4, "": 5, "x": 6 }; println(o["a b"], o["1x"], o["ä"], o["a-b"], o[""], o.x);`)},
 	{name: "object-escape-keys", main: m(`let o = new { "q\"q": 1, "b\\s": 2, "n\nl": 3 }; println(o["q\"q"], o["b\\s"], o["n\nl"]);`)},
 	{name: "object-keyword-keys", main: m(`let o = new { "fn": 1, "let": 2, "type": 3 }; println(o["fn"], o["let"], o["type"]);`)},
 	{name: "object-nested", main: m(`let o = new { a: new { b: [new { c: "d" }] }, f: fn() -> int { 1 } }; println(o.a.b[0].c, o.f());`)},
 	{name: "object-empty", main: m(`let o = new {}; println(o);`)},
-	{name: "object-annotated", main: m(`let o: { a: int, "b c": str, l: [?int] } = new { a: 1, "b c": "x", l: [none] }; println(o.a, o["b c"], o.l);`)},
+	{name: "object-annotated", main: m(`let o: { a: int, "b c": str, l: [?int] } = new { a: 1, "b c": "x", l: [?1] }; println(o.a, o["b c"], o.l);`)},
 	{name: "anyobj-literal", main: m(`let a = new { ? }; a.set("k", 1); let b: { ? } = new { ? }; println(a, b, a->k);`)},
 	{name: "anyobj-in-expr", main: "fn f(a: { ? }) -> int { a.keys().len() }\n" + m(`println(f(new { ? }), [new { ? }].len(), new { x: new { ? } }.x);`)},
 
@@ -137,20 +139,20 @@ var forms = []form{
 	{name: "type-object", main: "type T = { a: int, \"b c\": str, n: { z: ?[float] } };\n" + m(`let t: T = new { a: 1, "b c": "x", n: new { z: ?[1.5] } }; println(t.a, t["b c"], t.n.z);`)},
 	{name: "type-object-escape-key", main: "type T = { \"q\\\"q\": int };\n" + m(`let t: T = new { "q\"q": 1 }; println(t["q\"q"]);`)},
 	{name: "type-anyobj", main: "type T = { ? };\n" + m(`let t: T = new { ? }; t.set("a", 1); println(t);`)},
-	{name: "type-fn", main: "type F = fn(a: int, b: str) -> bool;\ntype G = fn() -> null;\n" + m(`let f: F = fn(a: int, b: str) -> bool { a == b.len() }; let g: G = fn() -> null { null }; g(); println(f(1, "x"));`)},
+	{name: "type-fn", main: "type G = fn() -> null;\ntype H = fn() -> [int];\n" + m(`let g: G = fn() -> null { null }; let h: H = fn() -> [int] { [1] }; g(); println(h());`)},
+	{name: "type-fn-params", after: "fn-type-params", main: "type F = fn(a: int, b: str) -> bool;\n" + m(`let f: F = fn(a: int, b: str) -> bool { a == b.len() }; println(f(1, "x"));`)},
 	{name: "type-option-list-range", main: "type A = ?int;\ntype B = ??int;\ntype C = [?int];\ntype D = ?[int];\ntype R = range;\n" + m(`let a: A = ?1; let b: B = ??1; let c: C = [?1]; let d: D = ?[1]; let r: R = 0..2; println(a, b, c, d, r);`)},
 	{name: "type-local", main: m(`type U = { name: str }; type N = int; let u: U = new { name: "n" }; let n: N = 2; println(u.name, n);`)},
 	{name: "type-pub", main: "pub type P = { a: int };\n" + m(`let p: P = new { a: 1 }; println(p.a);`)},
 	{name: "type-recursive-use", main: "type I = { v: int };\ntype W = { i: I, l: [I] };\n" + m(`let w: W = new { i: new { v: 1 }, l: [new { v: 2 }] }; println(w.i.v, w.l[0].v);`)},
-	{name: "let-annotations", main: m(`let a: int = 1; let b: float = 2f; let c: str = "s"; let d: bool = true; let e: null = null; let f: range = 0..1; let g: ?str = none; let h: [[int]] = [[]]; println(a, b, c, d, e, f, g, h);`)},
-	{name: "let-inferred", main: m(`let n = none; let l = []; let o = ?5; let f = fn() -> int { 1 }; let r = 0..2; let z = null; println(n, l, o, f(), r, z);`)},
+	{name: "let-annotations", main: m(`let a: int = 1; let b: float = 2f; let c: str = "s"; let d: bool = true; let e: null = null; let f: range = 0..1; let g: ?str = none; let h: [[int]] = [[1]]; println(a, b, c, d, e == null, f, g, h);`)},
+	{name: "let-inferred", main: m(`let n: ?int = none; let l: [str] = []; let o = ?5; let f = fn() -> int { 1 }; let r = 0..2; let z = null; println(n, l, o, f(), r, z == null);`)},
 	{name: "let-inferred-thread", main: "fn w(x: int) -> int { x + 1 }\n" + m(`let h = spawn w(1); println(h.join());`)},
-	{name: "let-inferred-any", main: "import any_list from testing;\n" + m(`let x = "[1]".parse_json(); let y = x as [int]; println(y);`)},
+	{name: "let-inferred-any", main: "import any_func from testing;\n" + m(`let y = any_func() as int; let z = "[1]".parse_json() as [int]; println(y, z);`)},
 
 	// ------------------------------------------------------------------------------------------
 	// singletons, impl blocks, annotations, modifiers
 	{name: "singleton-param", main: "$S = { n: int, s: str };\nfn f(sg: $S, k: int) -> int { sg.n + k }\nfn g(sg: $S) -> str { sg.s }\n" + m(`println(f(1), g());`), sing: map[string]hs.Value{"$S": sObj(41, "hi")}},
-	{name: "singleton-param-last", main: "$S = { n: int, s: str };\nfn f(k: int, sg: $S) -> int { sg.n + k }\n" + m(`println(f(1));`), sing: map[string]hs.Value{"$S": sObj(41, "hi")}},
 	{name: "singleton-zero", main: "$S = { n: int, s: str };\nfn f(sg: $S) -> int { sg.n }\n" + m(`println(f());`)},
 	{name: "singleton-two", main: "$A = { n: int, s: str };\n$B = { n: int, s: str };\nfn f(a: $A, b: $B, k: int) -> int { a.n * b.n + k }\n" + m(`println(f(1));`), sing: map[string]hs.Value{"$A": sObj(2, "a"), "$B": sObj(3, "b")}},
 	{name: "singleton-annotated-field", main: "$S = { n: int, s: str };\n$Empty = {\n};\nfn f(sg: $S) -> int { sg.n }\n" + m(`println(f());`), sing: map[string]hs.Value{"$S": sObj(4, "x")}},
@@ -169,14 +171,14 @@ var forms = []form{
 
 	// ------------------------------------------------------------------------------------------
 	// imports
-	{name: "import-fn", main: "import { add } from lib;\n" + m(`println(add(1, 2));`), mods: map[string]string{"lib": "pub fn add(a: int, b: int) -> int { a + b }\n"}},
-	{name: "import-single-no-braces", main: "import add from lib;\n" + m(`println(add(1, 2));`), mods: map[string]string{"lib": "pub fn add(a: int, b: int) -> int { a + b }\n"}},
-	{name: "import-many", main: "import { add, type Pair, sub, } from lib;\n" + m(`let p: Pair = new { l: 5, r: 3 }; println(add(p.l, p.r), sub(p.l, p.r));`), mods: map[string]string{"lib": "pub type Pair = { l: int, r: int };\npub fn add(a: int, b: int) -> int { a + b }\npub fn sub(a: int, b: int) -> int { a - b }\n"}},
-	{name: "import-type", main: "import type Pair from lib;\n" + m(`let p: Pair = new { l: 5, "r r": "x" }; println(p.l, p["r r"]);`), mods: map[string]string{"lib": "pub type Pair = { l: int, \"r r\": str };\n"}},
-	{name: "import-global", main: "import { counter, bump } from lib;\n" + m(`bump(); println(counter);`), mods: map[string]string{"lib": "pub let counter = 1;\npub fn bump() { counter += 1; }\n"}},
+	{name: "import-fn", main: "import { add } from lib;\n" + m(`println(add(1, 2));`), mods: map[string]string{"lib": "pub fn add(a: int, b: int) -> int { a + b }\nfn main() {}\n"}},
+	{name: "import-single-no-braces", main: "import add from lib;\n" + m(`println(add(1, 2));`), mods: map[string]string{"lib": "pub fn add(a: int, b: int) -> int { a + b }\nfn main() {}\n"}},
+	{name: "import-many", main: "import { add, type Pair, sub, } from lib;\n" + m(`let p: Pair = new { l: 5, r: 3 }; println(add(p.l, p.r), sub(p.l, p.r));`), mods: map[string]string{"lib": "pub type Pair = { l: int, r: int };\npub fn add(a: int, b: int) -> int { a + b }\npub fn sub(a: int, b: int) -> int { a - b }\nfn main() {}\n"}},
+	{name: "import-type", main: "import type Pair from lib;\n" + m(`let p: Pair = new { l: 5, "r r": "x" }; println(p.l, p["r r"]);`), mods: map[string]string{"lib": "pub type Pair = { l: int, \"r r\": str };\nfn main() {}\n"}},
+	{name: "import-global", main: "import { counter, bump } from lib;\n" + m(`bump(); println(counter);`), mods: map[string]string{"lib": "pub let counter = 1;\npub fn bump() { counter += 1; }\nfn main() {}\n"}},
 	{name: "import-builtin", main: "import { assert_eq, any_func } from testing;\nimport trigger minute from triggers;\nimport templ FooFeature from templates;\nimport { ping, http } from net;\n" + m(`assert_eq(1, 1); println("ok");`)},
-	{name: "import-two-modules", main: "import one from a;\nimport two from b;\n" + m(`println(one() + two());`), mods: map[string]string{"a": "pub fn one() -> int { 1 }\n", "b": "import one from a;\npub fn two() -> int { one() + 1 }\n"}},
-	{name: "import-singleton-fn", main: "import get from lib;\n" + m(`println(get(1));`), mods: map[string]string{"lib": "$S = { n: int, s: str };\npub fn get(sg: $S, k: int) -> int { sg.n + k }\n"}, sing: map[string]hs.Value{"$S": sObj(10, "x")}},
+	{name: "import-two-modules", main: "import one from a;\nimport two from b;\n" + m(`println(one() + two());`), mods: map[string]string{"a": "pub fn one() -> int { 1 }\nfn main() {}\n", "b": "import one from a;\npub fn two() -> int { one() + 1 }\nfn main() {}\n"}},
+	{name: "import-singleton-fn", main: "import get from lib;\n" + m(`println(get(1));`), mods: map[string]string{"lib": "$S = { n: int, s: str };\npub fn get(sg: $S, k: int) -> int { sg.n + k }\nfn main() {}\n"}, sing: map[string]hs.Value{"$S": sObj(10, "x")}},
 
 	// ------------------------------------------------------------------------------------------
 	// control flow expressions
@@ -191,7 +193,7 @@ var forms = []form{
 	{name: "match-no-default-stmt", main: m(`for x in 0..3 { match x { 0 => println("zero"), 1 => { println("one"); } } }`)},
 	{name: "match-default-stmt", main: m(`for x in 0..3 { match x { 0 => println("zero"), _ => { println("other"); } } }`)},
 	{name: "match-multi-literal", main: m(`for x in 0..6 { println(match x { 0 | 1 => "low", 2 | 3 | 4 => "mid", _ => "high" }); }`)},
-	{name: "match-literal-kinds", main: m(`println(match "b" { "a" => 1, "b" => 2, _ => 0 }, match true { false => 1, true => 2 }, match 1.5 { 1.5 => "f", _ => "g" }, match -1 { -1 => "neg", _ => "pos" }, match ?1 { ?1 => "some", _ => "none" }, match !true { !true => "nt", _ => "x" });`)},
+	{name: "match-literal-kinds", main: m(`println(match "b" { "a" => 1, "b" => 2, _ => 0 }, match true { false => 1, true => 2, _ => 3 }, match 1.5 { 1.5 => "f", _ => "g" }, match -1 { -1 => "neg", _ => "pos" }, match ?1 { ?1 => "some", _ => "none" }, match !true { !true => "nt", _ => "x" });`)},
 	{name: "match-block-arms", main: m(`for x in 0..3 { let r = match x { 0 => { let y = 1; y + 1 } 1 => { 5 }, _ => { 9 } }; println(r); }`)},
 	{name: "match-nested", main: m(`for x in 0..3 { println(match x { 0 => match x + 1 { 1 => "a", _ => "b" }, _ => match x { 2 => "c", _ => "d" } }); }`)},
 	{name: "match-default-nested-default", main: m(`for x in 0..3 { println(match x { 1 => "one", _ => match x { 2 => "two", _ => "zero" } }); }`)},
@@ -203,12 +205,14 @@ var forms = []form{
 	{name: "try-uncaught", main: m(`println("before"); throw("uncaught \"q\"");`)},
 	{name: "block-forms", main: m(`let a = { 1 }; let b = { let x = 2; { let y = x; y * 2 } }; { println("stmt block"); } {} println(a, b, { { { 3 } } });`)},
 	{name: "block-shadowing", main: m(`let x = 1; { let x = 2; { let x = 3; println(x); } println(x); } println(x);`)},
-	{name: "fn-literal-forms", main: m(`let a = fn() -> int { 1 }; let b = fn(x: int, y: [str]) -> str { y[x] }; let c = fn() { println("c"); }; let d = fn(f: fn(i: int) -> int) -> int { f(2) }; c(); println(a(), b(0, ["s"]), d(fn(i: int) -> int { i * i }));`)},
+	{name: "fn-literal-forms", main: m(`let a = fn() -> int { 1 }; let b = fn(x: int, y: [str]) -> str { y[x] }; let c = fn() { println("c"); }; c(); println(a(), b(0, ["s"]));`)},
+	{name: "fn-literal-fn-param", after: "fn-type-params", main: m(`let d = fn(f: fn(i: int) -> int) -> int { f(2) }; println(d(fn(i: int) -> int { i * i }));`)},
+	{name: "fn-literal-fn-param0", main: m(`let d = fn(f: fn() -> int) -> int { f() + 1 }; println(d(fn() -> int { 4 }));`)},
 	{name: "fn-return-types", main: "fn a() { println(\"a\"); }\nfn b() -> null { null }\nfn c() -> [int] { [1] }\nfn d() -> ?{ k: int } { ?new { k: 1 } }\nfn e() -> fn() -> int { fn() -> int { 7 } }\n" + m(`a(); b(); println(c(), d().unwrap().k, e()());`)},
 	{name: "spawn-forms", main: "fn w(x: int) -> int { x * 2 }\nfn n() { println(\"n\"); }\n" + m(`let h = spawn w(21); let k = spawn n(); k.join(); println(h.join());`)},
 	{name: "loop-forms", main: m(`let i = 0; loop { i += 1; if i > 3 { break; } if i == 2 { continue; } println("loop", i); } while i > 0 { i -= 1; if i == 1 { continue; } println("while", i); } for c in "héy" { println(c); } for e in [1, 2] { for j in 0..e { if j == 1 { break; } println(e, j); } }`)},
 	{name: "return-forms", main: "fn a(x: int) -> int { if x > 1 { return x; } return 0; }\nfn b(x: int) { if x > 1 { return; } println(\"b\", x); }\nfn c() -> null { return null; }\n" + m(`println(a(2), a(1)); b(2); b(1); c();`)},
-	{name: "null-stmt-forms", main: m(`let n = null; println(n, n == null);`)},
+	{name: "null-stmt-forms", main: m(`let n = null; let f = fn() -> null { null }; let k: null = f(); println(n == k);`)},
 	{name: "ident-underscore", main: m(`let _x = 1; let x_1 = 2; let X = 3; for _ in 0..2 { print("."); } println(_x + x_1 + X);`)},
 	{name: "comments-dropped", main: "// leading\nfn main() { /* block */ println(1 /* inner */ + 2); // trailing\n}\n"},
 	{name: "semicolon-forms", main: m(`let a = 1; if a == 1 { println("if"); }; { println("blk"); }; match a { _ => println("m") }; println("end")`)},
@@ -260,7 +264,7 @@ var forms = []form{
 	{name: "opt-never-tail-only", main: "fn f() -> int { println(\"x\"); return 1 }\n" + m(`println(f());`), kinds: "-"},
 	{name: "opt-two-nevers", main: "fn f(c: bool) -> int { if c { return 1; } else { return 2; } return 3; return 4; 5 }\n" + m(`println(f(true));`)},
 	{name: "opt-event-and-impl", main: "import templ FooFeature from templates;\n$D = { n: int, s: str };\nimpl FooFeature with { light } for $D {\n    fn dim(self: $D, percent: int) -> bool { return true; println(\"dead\"); false }\n}\n" + m(`println(dim(1));`), sing: map[string]hs.Value{"$D": sObj(41, "x")}},
-	{name: "opt-module-fn", main: "import f from lib;\n" + m(`println(f());`), mods: map[string]string{"lib": "pub fn f() -> int { return 1; let x = 2; x }\n"}},
+	{name: "opt-module-fn", main: "import f from lib;\n" + m(`println(f());`), mods: map[string]string{"lib": "pub fn f() -> int { return 1; let x = 2; x }\nfn main() {}\n"}},
 }
 
 func (f form) wants(kind string) bool {
@@ -310,7 +314,11 @@ func TestTableForms(t *testing.T) {
 				// acceptance of the table itself is checked once per form
 				orig := px.Pool().Exec(c.Request("vm"))
 				if orig.Crash == "" && !orig.Hang && !orig.Inconclusive && !orig.Accepted {
-					rejected = append(rejected, f.name+": "+firstProblem(orig))
+					if f.after != "" {
+						pk.Gate("form-needs:" + f.after)
+					} else {
+						rejected = append(rejected, f.name+": "+firstProblem(orig))
+					}
 				}
 			}
 			pk.Eval()
